@@ -170,6 +170,14 @@ def main():
     # ---- 2. code side: rebuild from /repo's working tree, run harness + driver ---------------
     try:
         configs = spec["configs"](tier, seed)
+        # thorough tier: every configuration under three generator seeds
+        if tier == "thorough" and not a.replay and not spec.get("exhaustive", {}).get("thorough"):
+            more = []
+            for extra_seed in (seed + 1000, seed + 2000):
+                for c in configs:
+                    c2 = dict(c); c2["tag"] = f"{c['tag']}-s{extra_seed}"; c2["env"] = dict(c.get("env", {}), VERIF_SEED=extra_seed)
+                    more.append(c2)
+            configs = configs + more
         # corpus first: inputs on which a past (seeded or repaired) defect showed, regenerated by (config, seed, index)
         corpus_file = os.path.join(VERIF, "corpus", pid + ".json")
         if os.path.exists(corpus_file) and not a.replay:
